@@ -1306,7 +1306,7 @@ def c18_large(prop, key, index, tier):
     for starts, ends in (({shallow}, {deepest}), (set(), {deepest}), ({shallow}, set()),
                          (set(rng.sample(names_, 2)), set(rng.sample(names_, 2)))):
         _check_between(out, req, cls, hashes, starts, ends, rng.random() < 0.5, rng.random() < 0.5, where,
-                       budget=20_000_000)
+                       budget=4_000_000)
     out.nontrivial = True
     return finish(prop, out, key, index, tier, 'c18_large', (key,), dict(kind=kind, jobs=len(req)))
 
